@@ -23,6 +23,7 @@ TRANSLATORS = [
     ('gen_split_regex', ['SplitRx.v']),
     ('gen_options', ['OptTab.v']),
     ('gen_callgraph', ['CallGraph.v']),
+    ('gen_lexpins', ['LexPins.v']),
 ]
 
 
